@@ -286,7 +286,7 @@ E2E_SEARCHES = ["drawer", "emcee", "dynesty_static", "dynesty_dynamic", "bfgs", 
 MULTICORE = ("emcee", "dynesty_static", "dynesty_dynamic", "bfgs", "lbfgs", "pyswarms_global", "pyswarms_local")
 
 
-def gen_e2e(rng, search, cores=1, thorough=False):
+def gen_e2e(rng, search, cores=1, thorough=False, force_reject=False):
     spec = gen_spec(rng, max_priors=3)
     terms = terms_of(rng, spec)
     settings = {}
@@ -302,7 +302,7 @@ def gen_e2e(rng, search, cores=1, thorough=False):
         settings = {"total_draws": rng.randint(3, 20)}
     case = {"kind": "e2e", "search": search, "spec": spec, "terms": terms, "cores": cores, "seed": rng.randrange(10 ** 6),
             "settings": settings, "spec_paths": [p for p, _ in leaves(spec["root"])]}
-    if search == "drawer" and rng.random() < 0.7:
+    if search == "drawer" and (force_reject or rng.random() < 0.5):
         # a region where the fit raises FitException: the initializer must drop those draws
         # without shifting the likelihoods of the remaining ones
         path, (kind, k) = rng.choice([lf for lf in leaves(spec["root"]) if lf[1][0] == "p"])
@@ -572,6 +572,8 @@ def gen_cases(ctx):
                 plan += [(s, 2)] * 3
     for s, cores in plan:
         e2e.append(gen_e2e(rng, s, cores, thorough))
+    for _ in range(1 if not thorough else 4):
+        e2e.append(gen_e2e(rng, "drawer", 1, thorough, force_reject=True))
     return cases, e2e
 
 
